@@ -7,6 +7,7 @@ import Balm.Impl.CandModel
 import Balm.Impl.SkipExcl
 import Balm.Impl.Nfvs
 import Balm.Impl.Block
+import Balm.Impl.ASeeds
 import Balm.TransNet
 /-!
 # `balmdriver` – line protocol between the Python harness and the Lean model
@@ -391,6 +392,14 @@ def handle (S : Session) (toks : List String) : Session × String :=
       let (d, o) := expandBlock S.ctx S.diag sz
       ({ S with diag := d }, showOutcome o ++ " " ++ dumpDiag d)
     | none => bad
+  | "ASEEDS" :: sz :: rest =>
+    let minsT := rest.takeWhile (· ≠ ";")
+    let bits := (rest.dropWhile (· ≠ ";")).drop 1
+    match optNat sz, parseSpaces n minsT with
+    | some sz, some ms =>
+      let (d, o, left) := expandASeeds S.ctx S.diag sz ms (bits.map (· == "1"))
+      ({ S with diag := d }, showOutcome o ++ " " ++ dumpDiag d ++ (if left.isEmpty then "" else " LEFTOVER"))
+    | _, _ => bad
   | "BLOCKX" :: maa :: opt :: sz :: clean => match optNat sz with
     | some sz =>
       let (d, o, left) := expandBlockX S.ctx S.diag { checkMaa := maa == "1", optSrc := opt == "1", szLimit := sz } (clean.map (· == "1"))
